@@ -127,20 +127,34 @@ func bucket(n int) string {
 func submitChecked(e *sim.Env, inv string, s *chainSUT, t *gen.Tree, tip *gen.Node, batch []*gen.Node, fullView bool) (*gen.Node, error) {
 	e.Step()
 	now := time.Now()
-	exp := s.expect(batch, tip, now)
+	// the second entry point: blocks above the v2 require height that a syncer
+	// has validated itself (each against the state it derived for its parent -
+	// for a header-valid chain on top of an invalid block that is the header
+	// state) go in through AddValidatedV2Blocks
+	states, validated := s.validatedStates(batch)
+	validated = validated && e.Chance(1, 2)
+	exp := s.expectVia(batch, tip, now, validated)
 	var before view
 	before = takeView(s, false)
 	oldState := s.cm.TipState()
 	var err error
-	e.Guard(inv+".panic", "AddBlocks", func() { err = s.cm.AddBlocks(blocksOf(batch)) })
+	call := "AddBlocks"
+	if validated {
+		call = "AddValidatedV2Blocks"
+		e.Probe("via_add_validated")
+		e.Shape("validated")
+		e.Guard(inv+".panic", call, func() { err = s.cm.AddValidatedV2Blocks(blocksOf(batch), states) })
+	} else {
+		e.Guard(inv+".panic", call, func() { err = s.cm.AddBlocks(blocksOf(batch)) })
+	}
 	newTip := auditBestChain(e, inv, s, t)
-	desc := fmt.Sprintf("AddBlocks(%d blocks, last %s) -> err=%v tip %s", len(batch), batch[len(batch)-1].Describe(), err, newTip.Describe())
+	desc := fmt.Sprintf("%s(%d blocks, last %s) -> err=%v tip %s", call, len(batch), batch[len(batch)-1].Describe(), err, newTip.Describe())
 	e.Logf("%s", desc)
 
 	if err != nil {
 		after := takeView(s, false)
 		if what, ok := before.equal(after); !ok {
-			e.Violationf(inv+".error-leaves-state", "changed:"+what, "AddBlocks failed (%v) but the node changed: %s", err, what)
+			e.Violationf(inv+".error-leaves-state", "changed:"+what, "%s failed (%v) but the node changed: %s", call, err, what)
 		}
 		if errors.Is(err, chain.ErrFutureBlock) {
 			e.Probe("err_future_block")
@@ -149,7 +163,7 @@ func submitChecked(e *sim.Env, inv string, s *chainSUT, t *gen.Tree, tip *gen.No
 	if newTip != tip {
 		// the tip moved
 		if err != nil {
-			e.Violationf(inv+".error-leaves-state", "tip-moved-on-error", "AddBlocks failed (%v) but the tip moved %s -> %s", err, tip.Describe(), newTip.Describe())
+			e.Violationf(inv+".error-leaves-state", "tip-moved-on-error", "%s failed (%v) but the tip moved %s -> %s", call, err, tip.Describe(), newTip.Describe())
 		}
 		last := batch[len(batch)-1]
 		if newTip != last {
@@ -179,9 +193,9 @@ func submitChecked(e *sim.Env, inv string, s *chainSUT, t *gen.Tree, tip *gen.No
 	}
 	switch {
 	case exp.mustErr && err == nil:
-		e.Violationf(inv+".invalid-rejected", "no-error:"+exp.why, "AddBlocks succeeded although %s", exp.why)
+		e.Violationf(inv+".invalid-rejected", "no-error:"+exp.why, "%s succeeded although %s", call, exp.why)
 	case exp.mustOK && err != nil:
-		e.Violationf(inv+".valid-accepted", "error:"+exp.why, "AddBlocks failed (%v) although the batch is valid (%s)", err, exp.why)
+		e.Violationf(inv+".valid-accepted", "error:"+exp.why, "%s failed (%v) although the batch is valid (%s)", call, err, exp.why)
 	case exp.mustOK && exp.newTip != nil && newTip != exp.newTip:
 		e.Violationf(inv+".heavier-adopted", "not-adopted", "batch ends in a valid, sufficiently heavier chain %s but the tip is %s", exp.newTip.Describe(), newTip.Describe())
 	case exp.mustOK && exp.newTip == nil && newTip != tip:
